@@ -161,6 +161,7 @@ class Engine:
         self.attr_hooks = {}      # clsname -> callable(engine, ref, name) -> value or NotImplemented
         self.obligations = []
         self.float_mode = "real"
+        self.float_strict = False
         self.spec_mode = False
         self.st = None
         self._decisions = None
@@ -190,6 +191,7 @@ class Engine:
             self._dpos = 0
             self._work = work
             self.st = State()
+            self.float_strict = False
             V.ON_PRODUCT[0] = self.note_product
             V.ON_DIV[0] = self.div_elim
             self.stats["paths"] += 1
@@ -321,8 +323,16 @@ class Engine:
             self.st.pc.append(goal)
         return ob
 
+    def force(self, v):
+        while isinstance(v, MaybeVal):
+            if getattr(v, "resolved", None) is None:
+                v.resolved = ("a",) if self.decide(v.cond) else ("b",)
+            v = v.a if v.resolved == ("a",) else v.b
+        return v
+
     # ------------------------------------------------------------- truthiness
     def truth(self, v):
+        v = self.force(v)
         if v is None:
             return False
         if isinstance(v, bool):
@@ -373,6 +383,14 @@ class Engine:
         return self.exec_body(fi.node.body, frame)
 
     def bind_args(self, a, args, kwargs, self_val, fi=None, closure_env=None):
+        named = {p.arg for p in a.posonlyargs + a.args + a.kwonlyargs}
+        for k_ in list(kwargs):
+            v_ = kwargs[k_]
+            if isinstance(v_, Absentable) and (k_ in named or a.kwarg is None):
+                if self.decide(v_.present):
+                    kwargs[k_] = v_.value
+                else:
+                    del kwargs[k_]
         env = {}
         params = [p.arg for p in a.posonlyargs + a.args]
         pos = list(args)
@@ -405,7 +423,7 @@ class Engine:
             else:
                 raise PyRaise("TypeError", ("missing kw-only argument " + p.arg,))
         if a.kwarg is not None:
-            d = DictVal({k: (True, v) for k, v in kwargs.items()})
+            d = DictVal({k: ((v.present, v.value) if isinstance(v, Absentable) else (True, v)) for k, v in kwargs.items()})
             env[a.kwarg.arg] = d
         elif kwargs:
             raise PyRaise("TypeError", ("unexpected keyword argument(s) %s" % sorted(kwargs),))
@@ -625,6 +643,7 @@ class Engine:
             raise Unsupported("assignment target %s" % type(t).__name__)
 
     def unpack(self, v, n):
+        v = self.force(v)
         if isinstance(v, (tuple, list)):
             if len(v) != n:
                 raise PyRaise("ValueError", ("unpack",))
@@ -739,6 +758,7 @@ class Engine:
         return self.getattr(obj, e.attr, fr, e)
 
     def getattr(self, obj, name, fr=None, node=None):
+        obj = self.force(obj)
         if isinstance(obj, Ref):
             return self.getattr_ref(obj, name)
         if isinstance(obj, SuperVal):
@@ -911,7 +931,7 @@ class Engine:
         return v
 
     def e_UnaryOp(self, e, fr):
-        v = self.eval(e.operand, fr)
+        v = self.force(self.eval(e.operand, fr))
         if isinstance(e.op, ast.Not):
             t = self.truth(v)
             return (not t) if isinstance(t, bool) else z3.Not(t)
@@ -932,6 +952,7 @@ class Engine:
         return self.binop(e.op, self.eval(e.left, fr), self.eval(e.right, fr), e)
 
     def binop(self, op, a, b, node=None):
+        a, b = self.force(a), self.force(b)
         if isinstance(a, (float,)):
             a = Fl(a)
         if isinstance(b, (float,)):
@@ -948,9 +969,20 @@ class Engine:
         num_b = is_int(b) or isinstance(b, Fl)
         if num_a and num_b:
             fl = isinstance(a, Fl) or isinstance(b, Fl)
+            if fl and self.float_strict and not isinstance(op, (ast.Sub, ast.Div)):
+                raise Unsupported("float %s in a function verified with exact binary64 semantics "
+                                  "(only division, subtraction-with-representability, comparisons and "
+                                  "integer conversions are encoded)" % type(op).__name__)
             if isinstance(op, ast.Add):
                 return Fl(R(a) + R(b)) if fl else a + b
             if isinstance(op, ast.Sub):
+                if fl:
+                    h = self.st.ghost.get("fsub")
+                    if h is not None:
+                        r_ = h(a, b)
+                        return r_ if isinstance(r_, Fl) else Fl(r_)
+                    if self.float_strict:
+                        raise Unsupported("float subtraction without a representability hook")
                 return Fl(R(a) - R(b)) if fl else a - b
             if isinstance(op, ast.Mult):
                 if fl:
@@ -959,7 +991,8 @@ class Engine:
             if isinstance(op, ast.Div):
                 if self.decide(self.num_eq0(b)):
                     raise PyRaise("ZeroDivisionError", (), node)
-                return Fl(self.fdiv(a, b))
+                r_ = self.fdiv(a, b)
+                return r_ if isinstance(r_, Fl) else Fl(r_)
             if isinstance(op, ast.FloorDiv):
                 if fl:
                     raise Unsupported("float floor division")
@@ -1050,6 +1083,11 @@ class Engine:
         return ra * rb
 
     def fdiv(self, a, b):
+        h = self.st.ghost.get("fdiv")
+        if h is not None:
+            return h(a, b)
+        if self.float_strict:
+            raise Unsupported("float division without a quotient hook")
         return R(a) / R(b)
 
     def e_Compare(self, e, fr):
@@ -1073,6 +1111,7 @@ class Engine:
         return res
 
     def compare(self, op, a, b, node=None):
+        a, b = self.force(a), self.force(b)
         if isinstance(op, ast.Is):
             return self.is_same(a, b)
         if isinstance(op, ast.IsNot):
@@ -1096,6 +1135,11 @@ class Engine:
         num_a = is_int(a) or isinstance(a, Fl) or is_bool(a)
         num_b = is_int(b) or isinstance(b, Fl) or is_bool(b)
         if num_a and num_b:
+            if isinstance(a, FlQ) or isinstance(b, FlQ):
+                sym = {ast.Lt: "<", ast.LtE: "<=", ast.Gt: ">", ast.GtE: ">="}.get(type(op))
+                c = fl_cmp(sym, a, b) if sym else None
+                if c is not None:
+                    return c
             if isinstance(a, Fl) or isinstance(b, Fl):
                 x, y = R(a), R(b)
             elif isinstance(a, int) and isinstance(b, int):
@@ -1191,6 +1235,7 @@ class Engine:
         return self.getitem(obj, idx, e)
 
     def getslice(self, obj, lo, hi, step, node=None):
+        obj, lo, hi, step = self.force(obj), self.force(lo), self.force(hi), self.force(step)
         if isinstance(obj, Ref):
             return self.getitem(obj, SliceVal(lo, hi, step), node)
         if step is not None:
@@ -1212,6 +1257,7 @@ class Engine:
         raise Unsupported("slice of %r" % (obj,))
 
     def getitem(self, obj, idx, node=None):
+        obj, idx = self.force(obj), self.force(idx)
         if obj is None:
             raise PyRaise("TypeError", ("'NoneType' object is not subscriptable",), node)
         if isinstance(obj, Ref):
@@ -1338,13 +1384,18 @@ class Engine:
                         if p:
                             kwargs[key] = v
                     else:
-                        if self.decide(p):
-                            kwargs[key] = v
+                        kwargs[key] = Absentable(p, v)
             else:
                 kwargs[k.arg] = self.eval(k.value, fr)
         return self.call_value(f, args, kwargs, e, fr)
 
     def call_value(self, f, args, kwargs, node=None, fr=None):
+        f = self.force(f)
+        if isinstance(f, BoundLib) and isinstance(self.force(f.obj), DictVal) and f.name == "get":
+            args = [self.force(args[0])] + list(args[1:])
+        elif isinstance(f, (Builtin, BoundLib)):
+            args = [self.force(a) for a in args]
+            kwargs = {k: self.force(v) for k, v in kwargs.items()}
         if isinstance(f, FuncInfo):
             return self.call_func(f, args, kwargs, None)
         if isinstance(f, BoundMethod):
@@ -1502,7 +1553,7 @@ class Engine:
     def b_abs(self, args, kwargs, node, fr):
         (v,) = args
         if isinstance(v, Fl):
-            return Fl(z3.If(v.t >= 0, v.t, -v.t))
+            return fl_abs(v)
         if isinstance(v, int):
             return abs(v)
         if is_int(v):
@@ -1518,7 +1569,7 @@ class Engine:
         if is_bool(v):
             return I(v)
         if isinstance(v, Fl):
-            return r_trunc(v.t)
+            return fl_trunc(v)
         if isinstance(v, str):
             try:
                 return int(v)
@@ -1547,7 +1598,7 @@ class Engine:
         if is_int(v):
             return v
         if isinstance(v, Fl):
-            return r_round_half_even(v.t)
+            return fl_round(v)
         raise Unsupported("round of %r" % (v,))
 
     def b_divmod(self, args, kwargs, node, fr):
@@ -1731,6 +1782,7 @@ class Engine:
 
     # ------------------------------------------------------------ lib methods
     def call_lib_method(self, obj, name, args, kwargs, node=None):
+        obj = self.force(obj)
         if isinstance(obj, Seq) and obj.kind == "list":
             if name == "append":
                 raise Unsupported("list.append must be applied through a location (handled in e_Call)")
@@ -1774,9 +1826,7 @@ class Engine:
                     p, v = obj.entries[key]
                     if isinstance(p, bool):
                         return v if p else default
-                    if self.decide(p):
-                        return v
-                    return default
+                    return lazy_ite(p, v, default)
                 if obj.rest_absent:
                     return default
                 raise Unsupported("dict.get of unmodelled key %r" % key)
@@ -1864,6 +1914,38 @@ class Engine:
             finally:
                 self.st.heap = saved
         raise Unsupported("spec form " + nm)
+
+
+class MaybeVal:
+    """Lazy if-then-else between values of different kinds (e.g. a float or
+    None): resolved by forking only where the code inspects the value."""
+
+    def __init__(self, cond, a, b):
+        self.cond, self.a, self.b = cond, a, b
+
+    def __repr__(self):
+        return "Maybe(%s ? %r : %r)" % (self.cond, self.a, self.b)
+
+
+class Absentable:
+    """A keyword argument that may be absent (symbolic presence flag)."""
+
+    def __init__(self, present, value):
+        self.present, self.value = present, value
+
+    def __repr__(self):
+        return "Absentable(%s, %r)" % (self.present, self.value)
+
+
+def lazy_ite(c, a, b):
+    if isinstance(c, bool):
+        return a if c else b
+    if isinstance(a, MaybeVal) or isinstance(b, MaybeVal):
+        return MaybeVal(c, a, b)
+    try:
+        return vite(c, a, b)
+    except TypeError:
+        return MaybeVal(c, a, b)
 
 
 class SliceVal:
